@@ -345,6 +345,8 @@ static ContentPtr make_virtual(const ContentPtr& x) {
   return std::make_shared<VirtualArray>(Identities::none(), util::Parameters(), gen, cache);
 }
 
+static int64_t g_sharedunion = 0;   // > 0: wrap every input layout in a union of two references to itself
+
 static ContentPtr input_layout(Toks& tk, bool may_wrap = true) {
   ContentPtr x = parse_layout(tk);
   g_inputs.push_back(x);
@@ -352,6 +354,23 @@ static ContentPtr input_layout(Toks& tk, bool may_wrap = true) {
   dump(x, du);
   g_before.push_back(du.str());
   if (g_virtual.on && may_wrap) return make_virtual(x);
+  if (g_sharedunion > 0 && may_wrap
+      && !dynamic_cast<UnionArray8_32*>(x.get()) && !dynamic_cast<UnionArray8_U32*>(x.get()) && !dynamic_cast<UnionArray8_64*>(x.get())) {
+    // (a union must not contain a union: an input that is a union itself is left as it is)
+    // the same array as a union whose branches are literally the same buffers: element i is taken from branch
+    // tags[i] at position i (tag pattern chosen by the case)
+    int64_t n = x.get()->length();
+    Index8 tags(n);
+    Index64 index(n);
+    for (int64_t i = 0; i < n; i++) {
+      tags.data()[i] = (int8_t)(((i * 7 + g_sharedunion) % 5) % 2);
+      index.data()[i] = i;
+    }
+    ContentPtrVec contents;
+    contents.push_back(x);
+    contents.push_back(x);
+    return std::make_shared<UnionArray8_64>(Identities::none(), util::Parameters(), tags, index, contents);
+  }
   return x;
 }
 
@@ -692,6 +711,11 @@ static std::string run_op(const std::string& op, Toks& tk, ContentPtr& result) {
     std::string key = tk.next();
     ContentPtr x = input_layout(tk);
     result = x.get()->getitem_field(key);
+    // depth queries on the projection as returned (for a VirtualArray: before anything is materialised)
+    std::pair<int64_t, int64_t> mm = result.get()->minmax_depth();
+    std::pair<bool, int64_t> bd = result.get()->branch_depth();
+    g_extra = std::to_string(result.get()->purelist_depth()) + " " + std::to_string(mm.first) + " " + std::to_string(mm.second)
+              + " " + (bd.first ? "1" : "0") + " " + std::to_string(bd.second);
   }
   else if (op == "getitem_fields") {
     int64_t k = tk.i64();
@@ -884,6 +908,16 @@ static std::string run_op(const std::string& op, Toks& tk, ContentPtr& result) {
     out << "(" << payload << "," << g_generate_calls << "," << first << ")";
     g_virtual.on = false;
     return out.str();
+  }
+  else if (op == "sharedunion") {
+    // sharedunion <pattern> <sub-op ...>: the sub-operation on union[x, x] with shared buffers must give what it gives on x
+    g_sharedunion = tk.i64();
+    std::string sub = tk.next();
+    std::string payload;
+    try { payload = run_op(sub, tk, result); }
+    catch (...) { g_sharedunion = 0; throw; }
+    g_sharedunion = 0;
+    return payload;
   }
   else if (op == "staleform") {
     // a generation that is refused (too short for the declared length) must leave nothing behind: no inferred form
